@@ -133,6 +133,9 @@ class Member:
 ATOM_TYPES = {n: DType(n, "atomic", code=c, size=s) for n, (c, s, d) in ATOMS.items()}
 
 
+SYSTEM_SYMBOL_TYPES = {"program": 0x1068, "routine": 0x106D, "task": 0x1070, "map": 0x1069}
+
+
 class Tag:
     def __init__(self, name, dtype, dims=(), instance_id=0, program=None, alias=False, access=0, kind="user"):
         self.name, self.dtype, self.dims, self.instance_id = name, dtype, tuple(dims), instance_id
@@ -155,6 +158,10 @@ class Tag:
 
     def symbol_type(self):
         t = self.dtype
+        if self.kind in SYSTEM_SYMBOL_TYPES and self.instance_id % 3:
+            # what genuine controllers list for these: a system symbol (bit 12) of an object class code, not a data type; the remaining
+            # third keeps the plain-DINT look of simulators / older firmware.  Either way the NAME decides what the symbol is.
+            return SYSTEM_SYMBOL_TYPES[self.kind]
         if t.is_struct:
             w = 0x8000 | t.template_id
         else:
@@ -459,7 +466,8 @@ def generate_project(rng, size="small", fw=None, micro800=False):
             syms.append(s)
         for i in range(rng.randint(0, 3)):
             s = new_tag(scope)
-            mod = rng.choice(["Local", _name(rng, scope, 6)])
+            # (a module may be called HeatMap or Plant_Cxn: its tags are module tags, not the controller's "Map:" / "Cxn:" symbols)
+            mod = rng.choice(["Local", "Local", _name(rng, scope, 6), _name(rng, scope, 6), _name(rng, scope, 4) + rng.choice(["Map", "Cxn", "_Task", "Program"])])
             r_ = rng.random()
             if r_ < 0.6:
                 s.name = f"{mod}:{rng.randrange(1, 17)}:{rng.choice('IOCS')}"
@@ -688,6 +696,21 @@ def add_struct_tag(prj, rng, type_name, fields, tag_name, dims=()):
     pb = _builder_for(prj, rng)
     t = pb.udt(type_name, fields)
     tag = pb.tag(tag_name, t, dims)
+    tag.data = bytearray(rng.getrandbits(8) for _ in range(len(tag.data)))
+    return t, tag
+
+
+def add_deep_tag(prj, rng, depth, tag_name, stem="Deep"):
+    """a family of `depth` UDTs nested in each other (level k holds one member, or a small array, of level k-1) and ONE tag of the
+    outermost type: the driver meets the whole chain unresolved when it uploads that tag.  Nesting depth has no limit in the property."""
+    pb = _builder_for(prj, rng)
+    t = pb.udt(f"{stem}0_q", [("leaf", rng.choice(["DINT", "INT", "REAL"]), 0), ("flag", "BOOL", 0)])
+    for k in range(1, depth):
+        fields = [("lvl", rng.choice(["SINT", "INT", "DINT"]), 0), ("inner", t, rng.choice([0, 0, 2]) if k < 6 else 0)]
+        if rng.random() < 0.5:
+            fields.reverse()
+        t = pb.udt(f"{stem}{k}_q", fields)
+    tag = pb.tag(tag_name, t, (), small_instance=True if rng.random() < 0.5 else None)
     tag.data = bytearray(rng.getrandbits(8) for _ in range(len(tag.data)))
     return t, tag
 
